@@ -1,8 +1,8 @@
 """C12: the real `Parser` (cache included) under a symbolic history of parse-type requests.
 
 Symbolic: ops - sequence (len <= H_OPS) of request codes; ws - index of the word each request uses
-(words come from a finite per-spec list, so hashing the cache key only splits paths); ks - how many
-trees an abandoned iteration consumed.  After the history, parse_forest(target) on the SAME Parser
+(words come from a finite per-spec list, so hashing the cache key only splits paths); the target word is
+fixed per condition (H_TARGET).  After the history, parse_forest(target) on the SAME Parser
 must equal the forest of a fresh Parser on the same grammar rules (tree reprs, in order), and the
 origin_repetitions tags must agree up to renaming of the iteration counters.
 """
@@ -42,7 +42,11 @@ def forest_obs(p, w, start="<start>", mode=ParsingMode.COMPLETE):
     return [(repr(t), norm_tags(t, ren)) for t in p.parse_forest(w, start, mode=mode)]
 
 
-def apply_op(p, op, w, k):
+TARGET = int(os.environ.get("H_TARGET", "0"))
+OP0 = int(os.environ.get("H_OP0", "-1"))  # >= 0: the first request is fixed (conditions run in parallel)
+
+
+def apply_op(p, op, w, k=1):
     if op == 0:
         p.parse(w)  # first tree only
     elif op == 1:
@@ -72,22 +76,28 @@ def apply_op(p, op, w, k):
             n.symbol = Terminal("!")
     elif op == 7:
         p.parse(w, mode=ParsingMode.INCOMPLETE)
+    elif op == 8:
+        p.parse_forest(w)  # generator created, never started
 
 
-NOPC = 8
+NOPC = 9
 
 
-def history_independent(ops: List[int], ws: List[int], ks: List[int], target: int) -> bool:
+def history_independent(ops: List[int], ws: List[int]) -> bool:
     """
-    pre: len(ops) <= NOPS and len(ws) == len(ops) and len(ks) == len(ops)
-    pre: all(0 <= o < NOPC for o in ops) and all(0 <= w < NW for w in ws) and all(0 <= k <= 2 for k in ks)
-    pre: 0 <= target < NW
+    pre: len(ops) <= NOPS and len(ws) == len(ops)
+    pre: all(0 <= o < NOPC for o in ops) and all(0 <= w < NW for w in ws) and (OP0 < 0 or len(ops) == 0 or ops[0] == 0)
     post: _
     """
-    exclude_known("history_independent", ops=ops, ws=ws, ks=ks, target=target, SPEC=SPEC)
+    target = TARGET
+    if OP0 >= 0:
+        if len(ops) == 0:
+            raise IgnoreAttempt("first op fixed")
+        ops = [OP0] + list(ops[1:])
+    exclude_known("history_independent", ops=ops, ws=ws, target=target, SPEC=SPEC)
     p = Parser(G.rules)
-    for o, w, k in zip(ops, ws, ks):
-        apply_op(p, o, WORDS[w], k)
+    for o, w in zip(ops, ws):
+        apply_op(p, o, WORDS[w])
     got = forest_obs(p, WORDS[target])
     want = forest_obs(Parser(G.rules), WORDS[target])
     if got != want:
@@ -98,27 +108,31 @@ def history_independent(ops: List[int], ws: List[int], ks: List[int], target: in
     return repr(a) == repr(b)
 
 
-def reach(ops: List[int], ws: List[int], ks: List[int], target: int) -> bool:
+def reach(ops: List[int], ws: List[int]) -> bool:
     """
-    pre: len(ops) <= NOPS and len(ws) == len(ops) and len(ks) == len(ops)
-    pre: all(0 <= o < NOPC for o in ops) and all(0 <= w < NW for w in ws) and all(0 <= k <= 2 for k in ks)
-    pre: 0 <= target < NW
+    pre: len(ops) <= NOPS and len(ws) == len(ops)
+    pre: all(0 <= o < NOPC for o in ops) and all(0 <= w < NW for w in ws) and (OP0 < 0 or len(ops) == 0 or ops[0] == 0)
     post: _
     """
     # twin: a full history on the target word itself followed by a non-empty forest (cache hit path)
+    target = TARGET
+    if OP0 >= 0:
+        if len(ops) == 0:
+            raise IgnoreAttempt("first op fixed")
+        ops = [OP0] + list(ops[1:])
     p = Parser(G.rules)
-    for o, w, k in zip(ops, ws, ks):
-        apply_op(p, o, WORDS[w], k)
+    for o, w in zip(ops, ws):
+        apply_op(p, o, WORDS[w])
     got = forest_obs(p, WORDS[target])
     return not (len(ops) == NOPS and len(got) > 0 and all(w == target for w in ws))
 
 
-def obs(ops, ws, ks, target):
+def obs(ops, ws, target):
     p = Parser(G.rules)
-    for o, w, k in zip(ops, ws, ks):
-        apply_op(p, o, WORDS[w], k)
+    for o, w in zip(ops, ws):
+        apply_op(p, o, WORDS[w])
     return forest_obs(p, WORDS[target])
 
 
-CONFORMANCE = [("obs", [[1], [0], [0], 0]), ("obs", [[2, 1], [0, 0], [1, 0], 0]), ("obs", [[3, 5], [0, 0], [0, 0], 0]),
-               ("obs", [[6, 4], [0, 1], [0, 0], 0]), ("obs", [[], [], [], 1])]
+CONFORMANCE = [("obs", [[1], [0], 0]), ("obs", [[2, 1], [0, 0], 0]), ("obs", [[3, 5], [0, 0], 0]),
+               ("obs", [[6, 4], [0, 1], 0]), ("obs", [[], [], 1]), ("obs", [[8, 0], [0, 0], 0])]
